@@ -158,6 +158,7 @@ CLAIMS['C03'] = {
              'LLFree::put returning an error (flag set) never finish with the flag set and never trap: a put of a held block can fail only in its argument check (put_LS, thread-local against '
              'arbitrary interference), and by the global invariant every block in a thread\'s hands lies in the managed range, is aligned to its order (multi-huge orders: aligned search '
              'positions of Lower::get, now part of the post-condition of every get) and has a valid order, so the check passes (Proofs/ConcPutOk.lean; put_failure_is_reported: the flag is not vacuous).'
+             ' Theorem conc_public_put_of_held_succeeds_with_tree_changes: the same (no finished thread reports a failed free, no thread traps) with change_tree calls (class change and/or Offline) among the concurrent calls (Proofs/ConcPutOkChange.lean).'
              ' Theorem conc_public_api_no_panic_with_tree_changes: the same panic freedom when change_tree calls (class change and/or Offline, by id or by search) run among the '
              'other calls of any number of threads (Proofs/ConcChange.lean: such a change is a legal transition whose frames move to the ghost of the caller; a frame rule lets the existing per-call proofs run below the hidden frames).'
              ' Theorem k2_online_race_panics is a SECOND REFUTATION (known finding K2): a kernel-evaluated schedule in which a free of a held frame into an offline tree is '
